@@ -757,6 +757,7 @@ def to_isar_variants(schema, rng, split=None):
         local_patch = []
         out = []
         skip = set()
+        opt_arrays = set()
         for idx, m in enumerate(d.members):
             if m.name in skip:
                 continue
@@ -767,6 +768,16 @@ def to_isar_variants(schema, rng, split=None):
                 local_patch.append('%s type %s byte' % (xml_name, m.name))
             sz = _xml_escape(m.size_text if m.size_text else m.size)
             r = rng.random()
+            if m.name in opt_arrays:
+                r = 0.99        # the forms that carry a <dimension> element
+            nxt_ = d.members[idx + 1] if idx + 1 < len(d.members) else None
+            if (m.kind == PLAIN and m.name not in sizers and m.type == 'u32' and nxt_ is not None
+                    and m.name == 'has_' + nxt_.name and nxt_.kind in (FIXED, DYNAMIC, LIMITED, EXT) and rng.random() < 0.85):
+                # isar's optional array: optional="true" on a member with a dimension stands for a u32 has_<name>
+                # in front of the (never optional) array
+                forms.add('optional-array:' + nxt_.kind)
+                opt_arrays.add(nxt_.name)
+                continue
             if m.kind == PLAIN and m.name not in sizers:
                 if r < 0.08 and out:      # isar drops a struct element without members, keep one in the XML
                     forms.add('patch-insert')
@@ -866,7 +877,22 @@ def to_isar_variants(schema, rng, split=None):
             elif m.kind == GREEDY:
                 forms.add('patch-greedy')
                 out.append('<member name="%s" type="%s"><dimension size="1"/></member>' % (m.name, t))
-                local_patch.append('%s greedy %s' % (xml_name, m.name))
+                if rng.random() < 0.5:
+                    # members behind the greedy field in the XML, removed by rules before or after the greedy rule
+                    k = rng.randint(1, 2)
+                    bog = ['%s_tail%d' % (m.name, i) for i in range(k)]
+                    out.extend('<member name="%s" type="%s"/>' % (b_, rng.choice(['u8', 'u32', 'u64'])) for b_ in bog)
+                    rules = ['%s greedy %s' % (xml_name, m.name)] + ['%s remove %s' % (xml_name, b_) for b_ in bog]
+                    if rng.random() < 0.5:
+                        rules.reverse()
+                        forms.add('patch-remove-then-greedy')
+                    else:
+                        forms.add('patch-greedy-then-remove')
+                    local_patch.extend(rules)
+                else:
+                    local_patch.append('%s greedy %s' % (xml_name, m.name))
+            if m.name in opt_arrays:
+                out[-1] = out[-1].replace('"><dimension', '" optional="true"><dimension', 1)
         if xml_name != d.name:
             local_patch.append('%s rename %s' % (xml_name, d.name))
             # rules name messages of the *input*: one addressed to the new name (no such message there) is ignored
